@@ -214,6 +214,18 @@ func lspCall(st *verifapi.LspState, method string, params any) (out lspResult) {
 	return
 }
 
+// analysisSurvives tells who owns a panic of the language server: when the analysis functions
+// themselves (CheckSource, GetSymbols, HoverOn and GotoDefinition at that position) panic on
+// the text it is C18's business and the case is set aside here; when they do not, the crash is
+// the server's own - the request got no answer at all, let alone the right one.
+func analysisSurvives(text string, line, char int) bool {
+	a := analyse(text)
+	if a.panic != "" {
+		return false
+	}
+	return navigate(a.res, line, char) == ""
+}
+
 func docParams(uri string) map[string]any {
 	return map[string]any{"textDocument": map[string]any{"uri": uri}}
 }
@@ -487,6 +499,9 @@ func checkC19(cc any) *ev.Verdict {
 				changes++
 			}
 			if r.Panic != "" {
+				if analysisSurvives(text, 0, 0) {
+					return v.Failf("server-crash", "step %d (%s %s): the server panicked although the analysis of the text %q does not: %s", i, op.Kind, op.URI, text, firstLines(r.Panic, 12))
+				}
 				v.Skipped = "server panic on this text (C18 owns crashes)"
 				return v
 			}
@@ -556,6 +571,9 @@ func checkC19(cc any) *ev.Verdict {
 			fs, _ := fresh(op.URI, text)
 			fr := lspCall(fs, method, params)
 			if r.Panic != "" || fr.Panic != "" {
+				if analysisSurvives(text, op.Line, op.Char) {
+					return v.Failf("server-crash", "step %d (%s %s at %d:%d): the server panicked although the analysis of the text %q does not: %s", i, op.Kind, op.URI, op.Line, op.Char, text, firstLines(r.Panic+fr.Panic, 12))
+				}
 				v.Skipped = "server panic (C18 owns crashes)"
 				return v
 			}
@@ -717,6 +735,9 @@ func checkC19N(cc any) *ev.Verdict {
 	}
 	state := verifapi.LspInitialState()
 	if r := lspCall(&state, "textDocument/didOpen", map[string]any{"textDocument": map[string]any{"uri": c.URI, "text": p.Text}}); r.Panic != "" {
+		if analysisSurvives(p.Text, 0, 0) {
+			return v.Failf("server-crash", "didOpen: the server panicked although the analysis of the text %q does not: %s", p.Text, firstLines(r.Panic, 12))
+		}
 		v.Skipped = "server panic (C18 owns crashes)"
 		return v
 	}
@@ -741,6 +762,9 @@ func checkC19N(cc any) *ev.Verdict {
 			h := lspCall(&state, "textDocument/hover", posParams(c.URI, li, ch))
 			d := lspCall(&state, "textDocument/definition", posParams(c.URI, li, ch))
 			if h.Panic != "" || d.Panic != "" {
+				if analysisSurvives(p.Text, li, ch) {
+					return v.Failf("server-crash", "hover / definition at %d:%d: the server panicked although the analysis of the text %q does not: %s", li, ch, p.Text, firstLines(h.Panic+d.Panic, 12))
+				}
 				v.Skipped = "server panic (C18 owns crashes)"
 				return v
 			}
